@@ -98,6 +98,9 @@ pub fn init_process() {
         "<non-string panic>".to_string()
       };
       let loc = info.location().map(|l| format!("{}:{}", l.file(), l.line())).unwrap_or_default();
+      if std::env::var("VERIF_BT").is_ok() {
+        println!("PANIC {msg} at {loc}\n{}", std::backtrace::Backtrace::force_capture());
+      }
       if IN_RUN.with(|r| r.get()) {
         LAST_PANIC.with(|p| {
           let mut p = p.borrow_mut();
@@ -139,43 +142,9 @@ where
   SCHED.with(|s| *s.borrow_mut() = None);
   let failure = match res {
     Ok(()) => None,
-    Err(payload) => {
-      let (mut msg, loc) = LAST_PANIC.with(|p| p.borrow_mut().take()).unwrap_or_default();
-      if msg.is_empty() {
-        msg = if let Some(s) = payload.downcast_ref::<&str>() {
-          s.to_string()
-        } else if let Some(s) = payload.downcast_ref::<String>() {
-          s.clone()
-        } else {
-          "<panic>".into()
-        };
-      }
-      let kind = if msg.starts_with("deadlock!") {
-        FailKind::Deadlock
-      } else if msg.starts_with("exceeded max_steps") {
-        FailKind::StepBound
-      } else {
-        FailKind::Panic
-      };
-      Some(Failure { kind, message: msg, location: loc })
-    }
+    Err(payload) => Some(classify(payload)),
   };
-  let stats = shared.borrow().clone();
-  RunOut {
-    stats,
-    faults: {
-      let mut f = ctx::take_faults();
-      let sw = shared.borrow().spurious_wakes;
-      if sw > 0 {
-        *f.entry("F1_spurious_wake_of_parked_thread").or_insert(0) += sw;
-      }
-      f
-    },
-    probes: ctx::take_probes(),
-    vtime_ns: fibre_verif_rt::time::covered_ns(),
-    no_park_violations: ctx::no_park_violations(),
-    failure,
-  }
+  collect_out(&shared, failure)
 }
 
 /// Run `f` on a fresh OS thread (std caches its `RandomState` keys per thread; a fresh thread per
@@ -187,4 +156,122 @@ pub fn on_fresh_thread<R: Send + 'static>(f: impl FnOnce() -> R + Send + 'static
     .expect("spawn run thread")
     .join()
     .expect("run thread panicked outside a run")
+}
+
+// ------------------------------------------------------------------------------------------
+// Sessions: many runs inside one `Runner::run`, so shuttle's continuation pool (the coroutine
+// stacks) is reused instead of being mmap'ed per run. Semantically identical to `execute` run by
+// run: the scheduler is re-seeded and all per-run state is reset before each run.
+
+pub struct SessionHooks {
+  /// prepare the next run on this thread (install its scenario in TLS) and return its knobs
+  pub next: Box<dyn FnMut() -> Option<RunCfg>>,
+  /// the run prepared by the last `next` ended (normally or by a failure)
+  pub done: Box<dyn FnMut(RunOut)>,
+}
+
+struct SessionState {
+  hooks: SessionHooks,
+  in_progress: bool,
+}
+
+fn collect_out(shared: &SchedShared, failure: Option<Failure>) -> RunOut {
+  let stats = shared.borrow().clone();
+  let mut faults = ctx::take_faults();
+  if stats.spurious_wakes > 0 {
+    *faults.entry("F1_spurious_wake_of_parked_thread").or_insert(0) += stats.spurious_wakes;
+  }
+  RunOut {
+    stats,
+    faults,
+    probes: ctx::take_probes(),
+    vtime_ns: fibre_verif_rt::time::covered_ns(),
+    no_park_violations: ctx::no_park_violations(),
+    failure,
+  }
+}
+
+fn classify(payload: Box<dyn std::any::Any + Send>) -> Failure {
+  let (mut msg, loc) = LAST_PANIC.with(|p| p.borrow_mut().take()).unwrap_or_default();
+  if msg.is_empty() {
+    msg = if let Some(s) = payload.downcast_ref::<&str>() {
+      s.to_string()
+    } else if let Some(s) = payload.downcast_ref::<String>() {
+      s.clone()
+    } else {
+      "<panic>".into()
+    };
+  }
+  let kind = if msg.starts_with("deadlock!") {
+    FailKind::Deadlock
+  } else if msg.starts_with("exceeded max_steps") {
+    FailKind::StepBound
+  } else {
+    FailKind::Panic
+  };
+  Failure { kind, message: msg, location: loc }
+}
+
+pub fn execute_many(max_steps: usize, stack_size: usize, hooks: SessionHooks, body: std::sync::Arc<dyn Fn() + Send + Sync>) {
+  init_process();
+  let state = Rc::new(RefCell::new(SessionState { hooks, in_progress: false }));
+  loop {
+    let shared: SchedShared = Rc::new(RefCell::new(SchedStats::default()));
+    let st2 = state.clone();
+    let sh2 = shared.clone();
+    let finished = Rc::new(std::cell::Cell::new(false));
+    let fin2 = finished.clone();
+    let next: super::sched::NextFn = Box::new(move || {
+      let mut st = st2.borrow_mut();
+      if st.in_progress {
+        st.in_progress = false;
+        let out = collect_out(&sh2, None);
+        (st.hooks.done)(out);
+      }
+      match (st.hooks.next)() {
+        None => {
+          fin2.set(true);
+          None
+        }
+        Some(cfg) => {
+          st.in_progress = true;
+          ctx::reset_run(cfg.rates, cfg.start_ns);
+          LAST_PANIC.with(|p| *p.borrow_mut() = None);
+          Some(super::sched::NextRun { seed: cfg.seed, mode: cfg.mode, spurious_rate: cfg.spurious_rate, record_trace: cfg.record_trace, guide: cfg.guide })
+        }
+      }
+    });
+    let sched = SimScheduler::session(next, shared.clone());
+    let mut c = shuttle::Config::new();
+    c.failure_persistence = shuttle::FailurePersistence::None;
+    c.silence_warnings = true;
+    c.max_steps = shuttle::MaxSteps::FailAfter(max_steps);
+    c.stack_size = stack_size;
+    SCHED.with(|s| *s.borrow_mut() = Some(shared.clone()));
+    IN_RUN.with(|r| r.set(true));
+    let b = body.clone();
+    let res = panic::catch_unwind(AssertUnwindSafe(|| {
+      shuttle::Runner::new(sched, c).run(move || b());
+    }));
+    IN_RUN.with(|r| r.set(false));
+    SCHED.with(|s| *s.borrow_mut() = None);
+    match res {
+      Ok(()) => {
+        debug_assert!(finished.get());
+        break;
+      }
+      Err(payload) => {
+        let failure = classify(payload);
+        let mut st = state.borrow_mut();
+        if st.in_progress {
+          st.in_progress = false;
+          let out = collect_out(&shared, Some(failure));
+          (st.hooks.done)(out);
+        } else {
+          println!("HARNESS-PANIC outside a run: {} at {}", failure.message, failure.location);
+          break;
+        }
+      }
+    }
+  }
 }
